@@ -148,6 +148,9 @@ func (fr *Frame) ghostAt(kind string, ord int, name, when string, reach T, st *S
 		if (g.Ordinal != ord && g.Ordinal != -1) || g.When != when {
 			continue
 		}
+		if g.Anchor != kind {
+			continue // a method that happens to be called send/recv/return is not a channel or return anchor
+		}
 		if !(g.Callee == name || (kind != "call" && g.Callee == kind)) {
 			continue
 		}
